@@ -172,8 +172,10 @@ def b5(ctx):
         # one case per zeroing write, or per incoming edge when a single write takes (start, count) from an own-frame join
         cases = []
         for e in ws:
-            for (dst_, cnt_), fs in split_on_own_phis(ctx, ev, res, e, [e["dst"], e["count"]]):
-                cases.append((e, dst_, cnt_, set(canon(f, IMMUT) for f in fs)))
+            for (dst0, cnt0), fs0 in split_on_own_phis(ctx, ev, res, e, [e["dst"], e["count"]]):
+                # .. or per way of a two-way choice in them (`add(old.min(n))`, `old.abs_diff(n)`)
+                for (dst_, cnt_), fs in split_on_choices([canon(dst0, IMMUT), canon(cnt0, IMMUT)], set(canon(f, IMMUT) for f in fs0)):
+                    cases.append((e, dst_, cnt_, set(canon(f, IMMUT) for f in fs)))
         ok_n = len(cases) == 2
         yield Ob(key_of("C14-B5", b.path, "two-arms"), ok_n, "two zeroing cases found (%d write(s), %d case(s))" % (len(ws), len(cases)), b.loc())
         ls = len_stores(res)
@@ -315,11 +317,18 @@ def b8(ctx):
         ok_e = len(enc) == 1 and enc[0]["callee"].endswith("encode_%s_varint_to" % ty)
         yield Ob(key_of("C14-B8", b.path, "encoder"), ok_e, "calls dbutils::leb128::encode_%s_varint_to" % ty, b.loc())
         ls = len_stores(res)
-        ok_l = len(ls) == 1 and ls[0]["chain"] and any("variant-is" == g[0] and g[2] == "Ok" for g in (ls[0].get("extra_guards") or []))
-        if ls and ok_l:
+        # len is stored once and what is added is the payload of the encoder's Ok - obtained through `inspect`, `?`, `unwrap` or a `match`: none of them
+        # yields it when the encoder failed
+        ok_l = len(ls) == 1
+        if ok_l:
             v = ls[0]["value"]
-            ok_l = isinstance(v, Lin) and mentions(v, len0())
-        yield Ob(key_of("C14-B8", b.path, "len-on-ok"), ok_l, "len advanced once, inside the Ok-only inspect closure", b.loc(), {"stores": [short(x["value"], 100) for x in ls]})
+            rest = as_lin(sub(v, ("hload", self_p(), ("len",), ("v", 1)))) if mentions(v, ("hload", self_p(), ("len",), ("v", 1))) else as_lin(sub(v, len0()))
+            atoms = [(a, k) for a, k in rest.m.items()]
+            ok_l = rest.c == 0 and len(atoms) == 1 and atoms[0][1] == 1
+            if ok_l:
+                a = atoms[0][0]
+                ok_l = (tag(a) == "payload" and a[2] == "Ok" and str(a[3]) == "0" and tag(a[1]) == "call" and enc and a[1][1] == enc[0]["callee"])
+        yield Ob(key_of("C14-B8", b.path, "len-on-ok"), ok_l, "len advanced once, by the encoder's Ok length", b.loc(), {"stores": [short(x["value"], 100) for x in ls]})
 
 
 @rule("C14-B9", "C14", 2, "who writes `len` of a byte handle: only put*/get*_unchecked/set_len/align_to/put_aligned/put/varint closures and constructors")
